@@ -26,7 +26,8 @@ def outcome(f):
 
 def pem_records(r, quick):
     out = []
-    markers = ["PUBLIC KEY", "RSA PRIVATE KEY", "X", "A B  C", "ENCRYPTED PRIVATE KEY"]
+    # (labels are free text in RFC 7468: include ones with characters that are special in regular expressions)
+    markers = ["PUBLIC KEY", "RSA PRIVATE KEY", "X", "A B  C", "ENCRYPTED PRIVATE KEY", "X.509 CERTIFICATE", "PRIVATE KEY (BACKUP)", "A+B", "K[1]", "C*", "WHO?"]
     lens = [0, 1, 2, 3, 47, 48, 49, 95, 96, 97, 100, 144, 200] + ([] if quick else [7, 8, 9, 15, 16, 17, 191, 192, 193, 500, 1000])
     for ln in lens:
         for enc in (False, True):
